@@ -306,6 +306,67 @@ func (bc *boundaryChecker) funcSafe(fn *ssa.Function) (bool, string) {
 	return true, ""
 }
 
+// alignedByCursorLoop: the slice only feeds a string variable carried round a loop of the form
+// `for len(t) > 0 && !utf8.RuneStart(t[0]) { t = t[1:] }`: whatever offset the variable starts at, it leaves the loop
+// empty or at the start of a character.
+func alignedByCursorLoop(sl *ssa.Slice) bool {
+	refs := sl.Referrers()
+	if refs == nil || len(*refs) == 0 {
+		return false
+	}
+	for _, r := range *refs {
+		ph, ok := r.(*ssa.Phi)
+		if !ok || !isLoopCarried(ph) {
+			return false
+		}
+		// the loop condition tests RuneStart of the variable's first byte
+		tested := false
+		for _, b := range ph.Parent().Blocks {
+			for _, in := range b.Instrs {
+				call, ok := in.(*ssa.Call)
+				if !ok || eng.CalleeName(call) != "unicode/utf8.RuneStart" {
+					continue
+				}
+				for w := range eng.Slice(call.Call.Args[0], nil) {
+					switch x := w.(type) {
+					case *ssa.Lookup:
+						if x.X == ssa.Value(ph) {
+							if k, isC := eng.ConstInt(x.Index); isC && k == 0 {
+								tested = true
+							}
+						}
+					case *ssa.Index:
+						if x.X == ssa.Value(ph) {
+							if k, isC := eng.ConstInt(x.Index); isC && k == 0 {
+								tested = true
+							}
+						}
+					}
+				}
+			}
+		}
+		if !tested {
+			return false
+		}
+		// every step of the variable is t[1:]
+		for _, e := range ph.Edges {
+			if e == ssa.Value(sl) {
+				continue
+			}
+			st, ok := e.(*ssa.Slice)
+			if !ok {
+				continue
+			}
+			if st.X == ssa.Value(ph) {
+				if k, isC := eng.ConstInt(st.Low); !isC || k != 1 || st.High != nil {
+					return false
+				}
+			}
+		}
+	}
+	return true
+}
+
 func ruleRuneBoundary(c *eng.Ctx) {
 	const R = "R13.1-RUNE-BOUNDARY"
 	c.Rule(R, "every bound of a string slice in package rag (except slices that are only measured/compared) is a rune boundary by construction", 6, 1)
@@ -336,6 +397,10 @@ func ruleRuneBoundary(c *eng.Ctx) {
 			}
 			if why, ok := measuredOnly[eng.FuncName(fn)]; ok {
 				c.Ok(R, key, sl.Pos(), "accepted: "+why)
+				return
+			}
+			if alignedByCursorLoop(sl) {
+				c.Ok(R, key, sl.Pos(), "a cursor that the loop consuming it moves to the next rune start before it is used")
 				return
 			}
 			var bad []string
